@@ -123,8 +123,11 @@ def twoStepFresnel(Uin, wvl, d1, d2, z):
     #phases of ~1/|1-m| radians have to cancel: spacings that are equal up to
     #rounding (0.3 against 0.1*3) leave nothing of the result. In that limit the
     #intermediate plane is the Fourier plane, i.e. the method is the angular
-    #spectrum method, which is well conditioned for every magnification
-    if m != 1 and abs(m - 1) < 1e-6:
+    #spectrum method, which is well conditioned for every magnification.
+    #m == 1 itself belongs to that limit: two steps of z/2 pass through a plane
+    #that is only wvl*z/(2*N*d1) wide and alias whatever is wider (a discontinuity
+    #at m = 1: errors of order one for grid Fresnel numbers above ~2)
+    if abs(m - 1) < 1e-6:
         return angularSpectrum(Uin, wvl, d1, d2, z)
 
     #intermediate plane
